@@ -1355,10 +1355,13 @@ def replay(path, build):
     """re-execute a violation written by run(): the recorded call sequence (or thread event) is replayed
     on a fresh object and judged again by the trace specification"""
     from common import Report
+    from common import VERIF
     doc = json.load(open(path))
     r = doc["replay"]
     rep = Report("C20", "replay", 0)
     scratch = _scratch()
+    evp = os.path.join(VERIF, "evidence", "C20.json")
+    keep_ev = open(evp).read() if os.path.exists(evp) else None      # a replay does not replace the evidence of a run
     try:
         if r.get("mode") == "threads":
             e = r["event"]
@@ -1396,6 +1399,9 @@ def replay(path, build):
     finally:
         import shutil
         shutil.rmtree(scratch, ignore_errors=True)
+        if keep_ev is not None:
+            with open(evp, "w") as f:
+                f.write(keep_ev)
 
 
 if __name__ == "__main__" and len(sys.argv) >= 3 and sys.argv[1] == "--worker":
